@@ -13,6 +13,7 @@ import RsModel.Lemmas.HistoryAnswers
 import RsModel.Lemmas.WarmLinesF
 import RsModel.Lemmas.RootHistory
 import RsModel.Lemmas.RootHistoryL
+import RsModel.Lemmas.RootNested
 /-!
 # C10 — CachedSource is transparent for every call history
 -/
@@ -471,5 +472,69 @@ theorem c10_root_history_lines (id : Nat) (inner : Src) (h : RootHypL inner) (ca
   cases a with
   | stream r => exact this
   | map m => exact ⟨this, fills_resolve_lines inner h m this⟩
+
+/-- **every history of `map(columns)` / `stream_chunks(columns)` calls of an outside caller on the wrapper and its clones, both column
+settings interleaved, the wrapped tree itself containing CachedSource nodes** (none beneath a ReplaceSource; distinct caches; the
+wrapper's own cache distinct from them; everything cold at the start).  The first call with a column setting is the only one that
+reaches the caches inside the wrapped tree, and it finds them cold for the keys it uses, so it streams the cache-free tree
+`inner.strip`; every later call with that setting is answered from the wrapper's entry.  Hence, for every call of every history:
+* `stream_chunks(true)`: every byte attributed exactly as by the cache-free tree's stream;
+* `stream_chunks(false)`: the first mapped chunk of every generated line names the same file and original line;
+* `map(true)`: the answer resolves every position of `source()` exactly as that stream (and is absent exactly when nothing is mapped);
+* `map(false)`: the answer resolves every generated line `L ≥ 1` to the same file name and original line.
+(`Lemmas/RootNested.lean`: invariant `RootInv2`, per-option coldness `ColdAt`; the replay lemmas of `c10_root_history(_lines)` applied
+to `inner.strip`.) -/
+theorem c10_root_history_nested (id : Nat) (inner : Src) (h : RootHyp2 id inner) (hT : RootHyp inner.strip) (hL : RootHypL inner.strip)
+    (calls : List RCall2) (σ : Store) (h0 : ∀ o, σ.get? (id, o) = none) (hc : Cold σ inner.ids) :
+    ∀ p ∈ (runRoot2 id inner calls σ).1,
+      (match p.2 with
+       | .stream r =>
+          (p.1.1 = true → attrOf r.evs = attrOf (inner.strip.stream ⟨true, false⟩ []).1.evs)
+          ∧ (p.1.1 = false → ∀ L, LNameOf r.evs L = LNameOf (inner.strip.stream ⟨false, false⟩ []).1.evs L)
+       | .map m =>
+          (p.1.1 = true → (∀ sm, m = some sm → attrFrom (decode sm.mappings) startPos inner.src = attrOf (inner.strip.stream ⟨true, false⟩ []).1.evs)
+              ∧ (m = none → attrOf (inner.strip.stream ⟨true, false⟩ []).1.evs = List.replicate inner.src.length none))
+          ∧ (p.1.1 = false → ∀ sm, m = some sm → ∀ L, 0 < L → LNameM sm L = LNameOf (inner.strip.stream ⟨false, false⟩ []).1.evs L)) := by
+  intro p hp
+  have hans := runRoot2_answers id inner h calls σ (rootInv2_cold id inner σ h0 hc) p hp
+  have hsrc := Src.strip_src inner
+  obtain ⟨⟨col, kind⟩, a⟩ := p
+  cases a with
+  | stream r =>
+    simp only at hans ⊢
+    constructor
+    · intro hcol
+      subst hcol
+      rcases hans with rfl | ⟨e, he, rfl⟩
+      · rfl
+      · have := replay_fill_attr inner.strip hT e he
+        rw [hsrc] at this
+        exact this
+    · intro hcol
+      subst hcol
+      intro L
+      rcases hans with rfl | ⟨e, he, rfl⟩
+      · rfl
+      · have := replay_fill_lname id inner.strip hL e he L
+        rw [hsrc] at this
+        exact this
+  | map m =>
+    simp only at hans ⊢
+    constructor
+    · intro hcol
+      subst hcol
+      have := fills_resolve inner.strip hT m hans
+      rw [hsrc] at this
+      exact this
+    · intro hcol
+      subst hcol
+      exact fills_resolve_lines inner.strip hL m hans
+
+/-- non-vacuity: a six-call history with both column settings on `CachedSource(ConcatSource[CachedSource(OriginalSource("a;b\nc", "f")),
+RawSource("x")])` returns six answers; the structural hypotheses hold -/
+example : (runRoot2 0 (.concat (.cons (.cached 1 (.orig [97, 59, 98, 10, 99] [102])) (.cons (.rawStr [120]) .nil)))
+      [(true, .map), (false, .stream), (true, .stream), (false, .map), (true, .map), (false, .stream)] []).1.length = 6
+    ∧ RootHyp2 0 (.concat (.cons (.cached 1 (.orig [97, 59, 98, 10, 99] [102])) (.cons (.rawStr [120]) .nil))) := by
+  refine ⟨by decide, ⟨by simp [Src.NoCR, SrcList.NoCRs], by decide, by decide, fun _ _ => rfl⟩⟩
 
 end Rs
